@@ -203,8 +203,10 @@ class Interp:
         raise Unknown('no return reached')
 
 
-def truth_table(facts, closure_body, pair_arg_index=2, pair_is_ref=True):
-    """{(allzero, sign): abstract return value} for a closure whose argument `pair_arg_index` is the (row, bias) pair."""
+def truth_table(facts, closure_body, pair_arg_index=None, pair_is_ref=True):
+    """{(allzero, sign): abstract return value} for a closure (or a function used as one) whose last argument is the (row, bias) pair."""
+    if pair_arg_index is None:
+        pair_arg_index = closure_body.arg_count   # closures: (env, item) -> 2; plain functions: (item) -> 1
     out = {}
     for allzero in (True, False):
         for sign in (-1, 0, 1):
